@@ -9,7 +9,7 @@ package alephium
 //     scripted by the case generators and keeping a request/answer log;
 //   * event / message specifications with a generator-side ground truth ("does this event convert, and to what");
 //   * the writer for `$VERIF_OUT/alphwatch.cases` and the test entry point `TestVerifAlphWatch`
-//     (env VERIF_PART = c08 | c09 | all selects the generators).
+//     (env VERIF_PART = c08 | c09 | c04 | c17 | all selects the generators).
 //
 // Everything the real code asks the node is answered from tables that are also written into the case
 // line, so the Lean model is a pure function of the line stream.
@@ -357,6 +357,10 @@ type fakeNode struct {
 	pageReqs  int   // page requests since the last count request
 	pageCap   int   // beyond this many page requests per tick the node answers 500 (spin breaker)
 	spun      bool
+	// a load-balanced endpoint: this tick's count request (and, with lagPages, its page requests) is answered by a backend that
+	// holds only the first lagVis events of the log
+	lagPages bool
+	lagVis   int
 
 	// gating of the count request (the fetch loop's tick)
 	gated   bool
@@ -366,6 +370,12 @@ type fakeNode struct {
 	hgated   bool
 	harrive  chan struct{}
 	hrelease chan struct{}
+	// one-shot gate on the status request of ONE transaction (the sentinel request behind which the harness looks at the watcher's
+	// request queue): the handler parks before it answers, and reports when it has answered
+	stGate    string
+	stArrive  chan struct{}
+	stRelease chan struct{}
+	stDone    chan struct{}
 }
 
 func newFakeNode() *fakeNode {
@@ -400,6 +410,9 @@ func (n *fakeNode) reset() {
 	n.pageReqs = 0
 	n.pageCap = 1 << 30
 	n.spun = false
+	n.lagPages = false
+	n.lagVis = 0
+	n.stGate = ""
 	n.gated = false
 	n.arrive = make(chan struct{})
 	n.release = make(chan struct{})
@@ -547,12 +560,24 @@ func (n *fakeNode) serve(w http.ResponseWriter, r *http.Request) {
 			n.fail(w, 500)
 			return
 		}
-		if start < 0 || start > n.visible {
-			start = n.visible
+		vis := n.visible
+		if n.lagPages { // answered by the backend that is behind
+			vis = n.lagVis
+		}
+		if start < 0 {
+			start = vis
+		}
+		if start > vis {
+			// past the end of what this node holds: a full node walks the log from `start`, finds nothing, and answers with no
+			// events and nextStart = start (it never sends a client back)
+			n.log = append(n.log, fmt.Sprintf("page%s:%s>%d", who, q.Get("start"), start))
+			n.grow(k + 1)
+			n.reply(w, 200, fmt.Sprintf(`{"events":[],"nextStart":%d}`, start))
+			return
 		}
 		next := start + n.pageSize
-		if next > n.visible {
-			next = n.visible
+		if next > vis {
+			next = vis
 		}
 		var evs []string
 		for _, e := range n.events[start:next] {
@@ -634,6 +659,30 @@ func (n *fakeNode) serve(w http.ResponseWriter, r *http.Request) {
 		n.reply(w, 200, fmt.Sprintf(`{"currentHeight":%d}`, n.height))
 	case p == "/transactions/status":
 		tx := q.Get("txId")
+		n.mu.Lock()
+		sentinel := n.stGate != "" && n.stGate == tx && key == n.key
+		stArrive, stRelease, stDone := n.stArrive, n.stRelease, n.stDone
+		n.mu.Unlock()
+		if sentinel {
+			// the watcher's request loop has taken the sentinel request off its queue and is waiting for this answer; nothing of
+			// this exchange goes into the case's request log
+			select {
+			case stArrive <- struct{}{}:
+				select {
+				case <-stRelease:
+				case <-r.Context().Done():
+					return
+				}
+			case <-r.Context().Done():
+				return
+			}
+			n.reply(w, 200, `{"type":"TxNotFound"}`)
+			select {
+			case stDone <- struct{}{}:
+			default:
+			}
+			return
+		}
 		n.mu.Lock()
 		defer n.mu.Unlock()
 		if key != n.key { // the case this request belongs to is over
@@ -883,6 +932,9 @@ func TestVerifAlphWatch(t *testing.T) {
 	}
 	if part == "c04" { // "every honest guardian observing the same message signs the same 32 bytes": what the two delivery paths publish
 		g.genC04()
+	}
+	if part == "c17" { // the watcher's request queue, where C17 observes "at most once per (chain, transaction)"
+		g.genC17()
 	}
 	g.emit("end end") // lets the check tell a complete case file from one cut short
 	keys := make([]string, 0, len(g.dist))
